@@ -3,20 +3,21 @@ import GnarkVerif.Model.Transcript
 Helper lemmas for C15 (property theorems are in Props/C15.lean).
 -/
 namespace GV.Transcript
-variable (H : Bytes → Bytes)
+variable (W : Bytes → Option Bytes) (H : Bytes → Bytes)
 
-def specValue (cs : List Chal) : Nat → Bytes
+/-- the sequential specification, on the sequence of writes: `none` = some write of the chain is refused -/
+def specValue (cs : List Chal) : Nat → Option Bytes
   | 0 => match cs[0]? with
-    | some c => H (c.name ++ c.bindings.flatten)
-    | none => []
-  | i+1 => match cs[i+1]? with
-    | some c => H (c.name ++ specValue cs i ++ c.bindings.flatten)
-    | none => []
+    | some c => (absorb W (c.name :: c.bindings)).map H
+    | none => none
+  | i+1 => match cs[i+1]?, specValue cs i with
+    | some c, some p => (absorb W (c.name :: p :: c.bindings)).map H
+    | _, _ => none
 
 /-- `specValue … j` only reads names and bindings at positions `≤ j` -/
 theorem specValue_congr (cs cs' : List Chal) (j : Nat)
     (h : ∀ i, i ≤ j → (cs[i]?).map (fun c => (c.name, c.bindings)) = (cs'[i]?).map (fun c => (c.name, c.bindings))) :
-    specValue H cs j = specValue H cs' j := by
+    specValue W H cs j = specValue W H cs' j := by
   induction j with
   | zero =>
     have := h 0 (Nat.le_refl 0)
@@ -26,7 +27,26 @@ theorem specValue_congr (cs cs' : List Chal) (j : Nat)
     have := h (j+1) (Nat.le_refl _)
     have ih' := ih (fun i hi => h i (Nat.le_succ_of_le hi))
     simp only [specValue]
-    cases h1 : cs[j+1]? <;> cases h2 : cs'[j+1]? <;> simp_all
+    rw [ih']
+    cases h1 : cs[j+1]? <;> cases h2 : cs'[j+1]? <;> cases specValue W H cs' j <;> simp_all
+
+theorem absorb_none_iff (ws : List Bytes) : absorb W ws = none ↔ ∃ w ∈ ws, W w = none := by
+  induction ws with
+  | nil => simp [absorb]
+  | cons w ws ih =>
+    simp only [absorb, List.mem_cons, exists_eq_or_imp]
+    cases hw : W w with
+    | none => simp
+    | some a =>
+      cases hr : absorb W ws with
+      | none => simp [← ih, hr]
+      | some r => simp [← ih, hr]
+
+/-- a stream hash (`Write` never fails and absorbs its argument) sees the concatenation -/
+theorem absorb_some (ws : List Bytes) : absorb some ws = some ws.flatten := by
+  induction ws with
+  | nil => rfl
+  | cons w ws ih => simp [absorb, ih]
 
 theorem find_some {cs : List Chal} {name : Bytes} {i : Nat} (h : find cs name = some i) :
     ∃ c, cs[i]? = some c ∧ c.name = name := by
@@ -34,13 +54,14 @@ theorem find_some {cs : List Chal} {name : Bytes} {i : Nat} (h : find cs name = 
   have := List.findIdx?_eq_some_iff_getElem.mp h
   obtain ⟨hlt, hp, _⟩ := this
   exact ⟨cs[i], by simp [hlt], by simpa using hp⟩
+
 structure Inv (s : State) : Prop where
   prefix_ : ∃ k, k ≤ s.chals.length ∧
       (∀ i c, s.chals[i]? = some c → (c.value.isSome ↔ i < k)) ∧
       s.prev = (if k = 0 then none else some (k-1))
-  values : ∀ i c v, s.chals[i]? = some c → c.value = some v → v = specValue H s.chals i
+  values : ∀ i c v, s.chals[i]? = some c → c.value = some v → specValue W H s.chals i = some v
 
-theorem inv_init (names : List Bytes) : Inv H (init names) := by
+theorem inv_init (names : List Bytes) : Inv W H (init names) := by
   constructor
   · refine ⟨0, Nat.zero_le _, ?_, by simp [init]⟩
     intro i c h
@@ -52,7 +73,7 @@ theorem inv_init (names : List Bytes) : Inv H (init names) := by
     obtain ⟨n, _, rfl⟩ := h
     simp at hv
 
-theorem inv_bind (s : State) (name v : Bytes) (hs : Inv H s) : Inv H (step H s (.bind name v)).1 := by
+theorem inv_bind (s : State) (name v : Bytes) (hs : Inv W H s) : Inv W H (step W H s (.bind name v)).1 := by
   simp only [step]
   split
   · exact hs
@@ -85,13 +106,13 @@ theorem inv_bind (s : State) (name v : Bytes) (hs : Inv H s) : Inv H (step H s (
             simp at hj; subst hj
             simp [hnone'] at hv'
           · have hjk : j < k := (hpre j c' hj).mp (by simp [hv'])
-            rw [hval j c' v' hj hv']
+            rw [← hval j c' v' hj hv']
             apply specValue_congr
             intro t ht
             have : i ≠ t := by omega
             simp [this]
 
-theorem inv_compute (s : State) (name : Bytes) (hs : Inv H s) : Inv H (step H s (.compute name)).1 := by
+theorem inv_compute (s : State) (name : Bytes) (hs : Inv W H s) : Inv W H (step W H s (.compute name)).1 := by
   simp only [step]
   split
   · exact hs
@@ -104,63 +125,106 @@ theorem inv_compute (s : State) (name : Bytes) (hs : Inv H s) : Inv H (step H s 
       · rename_i hnone
         split
         · exact hs
-        · rename_i hcond
-          obtain ⟨⟨k, hk, hpre, hprev⟩, hval⟩ := hs
-          have hilt : i < s.chals.length := (List.getElem?_eq_some_iff.mp hc).1
-          have hik : ¬ i < k := by
-            intro hlt; have := (hpre i c hc).mpr hlt; simp [hnone] at this
-          have hieq : k = i := by
-            by_cases h0 : i = 0
-            · omega
-            · have : s.prev = some (i-1) := by
-                by_cases hp : s.prev = some (i-1)
-                · exact hp
-                · exact absurd ⟨h0, hp⟩ hcond
-              rw [hprev] at this
-              split at this
-              · simp at this
-              · simp at this; omega
-          subst hieq
-          have hself : ∀ a : Chal, (s.chals.set k a)[k]? = some a := by
-            intro a; simp [hilt]
-          constructor
-          · refine ⟨k+1, by simp; omega, ?_, by simp⟩
-            intro j c' hj
-            by_cases hjk : k = j
-            · subst hjk
-              rw [hself] at hj; simp at hj; subst hj
-              simp
-            · rw [List.getElem?_set_ne hjk] at hj
-              have := hpre j c' hj
-              rw [this]; omega
-          · intro j c' v' hj hv'
-            by_cases hjk : k = j
-            · subst hjk
-              rw [hself] at hj; simp at hj; subst hj
-              simp at hv'; subst hv'
-              have hcongr : specValue H (s.chals.set k { c with value := some (H (preimage s.chals k c)) }) k
-                  = specValue H s.chals k := by
-                apply specValue_congr
-                intro t ht
-                by_cases htk : k = t
-                · subst htk; rw [hself]; simp [hc]
-                · rw [List.getElem?_set_ne htk]
-              rw [hcongr]
-              cases k with
-              | zero => simp [specValue, hc, preimage]
-              | succ i =>
-                simp only [specValue, hc, preimage]
-                have hlt : i < s.chals.length := by omega
-                have hci : s.chals[i]? = some s.chals[i] := by simp [hlt]
-                have hsome : (s.chals[i]).value.isSome := (hpre i _ hci).mpr (by omega)
-                obtain ⟨w, hw⟩ := Option.isSome_iff_exists.mp hsome
-                have := hval i _ w hci hw
-                simp [hci, hw, this]
-            · rw [List.getElem?_set_ne hjk] at hj
-              have hlt : j < k := (hpre j c' hj).mp (by simp [hv'])
-              rw [hval j c' v' hj hv']
-              apply specValue_congr
-              intro t ht
-              have : k ≠ t := by omega
-              rw [List.getElem?_set_ne this]
+        · split
+          · exact hs
+          · rename_i hcond
+            split
+            · exact hs
+            · rename_i bs hbs
+              obtain ⟨⟨k, hk, hpre, hprev⟩, hval⟩ := hs
+              have hilt : i < s.chals.length := (List.getElem?_eq_some_iff.mp hc).1
+              have hik : ¬ i < k := by
+                intro hlt; have := (hpre i c hc).mpr hlt; simp [hnone] at this
+              have hieq : k = i := by
+                by_cases h0 : i = 0
+                · omega
+                · have : s.prev = some (i-1) := by
+                    by_cases hp : s.prev = some (i-1)
+                    · exact hp
+                    · exact absurd ⟨h0, hp⟩ hcond
+                  rw [hprev] at this
+                  split at this
+                  · simp at this
+                  · simp at this; omega
+              subst hieq
+              have hself : ∀ a : Chal, (s.chals.set k a)[k]? = some a := by
+                intro a; simp [hilt]
+              constructor
+              · refine ⟨k+1, by simp; omega, ?_, by simp⟩
+                intro j c' hj
+                by_cases hjk : k = j
+                · subst hjk
+                  rw [hself] at hj; simp at hj; subst hj
+                  simp
+                · rw [List.getElem?_set_ne hjk] at hj
+                  have := hpre j c' hj
+                  rw [this]; omega
+              · intro j c' v' hj hv'
+                by_cases hjk : k = j
+                · subst hjk
+                  rw [hself] at hj; simp at hj; subst hj
+                  simp at hv'; subst hv'
+                  have hcongr : specValue W H (s.chals.set k { c with value := some (H bs) }) k
+                      = specValue W H s.chals k := by
+                    apply specValue_congr
+                    intro t ht
+                    by_cases htk : k = t
+                    · subst htk; rw [hself]; simp [hc]
+                    · rw [List.getElem?_set_ne htk]
+                  rw [hcongr]
+                  cases k with
+                  | zero =>
+                    simp only [writes, if_true, List.nil_append] at hbs
+                    simp [specValue, hc, hbs]
+                  | succ i =>
+                    have hlt : i < s.chals.length := by omega
+                    have hci : s.chals[i]? = some s.chals[i] := by simp [hlt]
+                    have hsome : (s.chals[i]).value.isSome := (hpre i _ hci).mpr (by omega)
+                    obtain ⟨w, hw⟩ := Option.isSome_iff_exists.mp hsome
+                    have hsp := hval i _ w hci hw
+                    simp [writes, hci, hw] at hbs
+                    simp [specValue, hc, hsp, hbs]
+                · rw [List.getElem?_set_ne hjk] at hj
+                  have hlt : j < k := (hpre j c' hj).mp (by simp [hv'])
+                  rw [← hval j c' v' hj hv']
+                  apply specValue_congr
+                  intro t ht
+                  have : k ≠ t := by omega
+                  rw [List.getElem?_set_ne this]
+
+/-- the two ways ComputeChallenge returns a value: cached (nothing changes) or fresh -/
+theorem compute_val_cases (s : State) (name v : Bytes) (h : (step W H s (.compute name)).2 = .val v) :
+    ∃ i c, find s.chals name = some i ∧ s.chals[i]? = some c ∧
+      ((c.value = some v ∧ step W H s (.compute name) = (s, .val v)) ∨
+       (c.value = none ∧ ∃ bs, absorb W (writes s.chals i c) = some bs ∧ v = H bs ∧
+          step W H s (.compute name) =
+            ({ chals := s.chals.set i { c with value := some (H bs) }, prev := some i }, .val (H bs)))) := by
+  simp only [step] at h
+  split at h
+  · simp at h
+  · rename_i i hf
+    split at h
+    · simp at h
+    · rename_i c hc
+      refine ⟨i, c, hf, hc, ?_⟩
+      split at h
+      · rename_i w hw
+        simp at h; subst h
+        left; simp [step, hf, hc, hw]
+      · rename_i hnone
+        split at h
+        · simp at h
+        · rename_i a hwn
+          split at h
+          · simp at h
+          · rename_i hcond
+            split at h
+            · simp at h
+            · rename_i bs hbs
+              simp at h; subst h
+              right
+              refine ⟨hnone, bs, hbs, rfl, ?_⟩
+              simp only [step, hf, hc, hnone, hwn, hbs]
+              simp only [hcond, if_false]
+
 end GV.Transcript
